@@ -497,7 +497,11 @@ def _type_name_for_error_messages(expression_type):
     elif expression_type.which_type == "enumeration":
         # TODO(bolms): Should this be the fully-qualified name?
         return expression_type.enumeration.name.canonical_name.object_path[-1]
-    assert False, "Shouldn't be here."
+    elif expression_type.which_type == "boolean":
+        return "boolean"
+    elif expression_type.which_type == "opaque":
+        return "structure or array"
+    return "untyped expression"
 
 
 def _type_check_passed_parameters(atomic_type, ir, source_file_name, errors):
@@ -536,7 +540,7 @@ def _type_check_passed_parameters(atomic_type, ir, source_file_name, errors):
             # usage sites.
             continue
         if (
-            atomic_type.runtime_parameter[i].type.which_type
+            ir_data_utils.reader(atomic_type.runtime_parameter[i]).type.which_type
             != referenced_type.runtime_parameter[i].type.which_type
         ):
             errors.append(
@@ -551,7 +555,9 @@ def _type_check_passed_parameters(atomic_type, ir, source_file_name, errors):
                                 referenced_type.runtime_parameter[i].type
                             ),
                             _type_name_for_error_messages(
-                                atomic_type.runtime_parameter[i].type
+                                ir_data_utils.reader(
+                                    atomic_type.runtime_parameter[i]
+                                ).type
                             ),
                         ),
                     ),
